@@ -15,7 +15,7 @@
    and at least one allele (what __init__ and ts.variants guarantee). *)
 From Coq Require Import List ZArith Bool Sorting.Sorted.
 From TskVerif Require Import Base.Common Gen.Generated C16.Model C16.Spec C16.TemplateProofs C16.BodyProofs
-  C16.MappingProofs C16.Decode C16.WrapperProofs C16.EndToEndProofs.
+  C16.MappingProofs C16.Decode C16.WrapperProofs C16.EndToEndProofs C16.Corollaries.
 Import ListNotations.
 Open Scope Z_scope.
 
@@ -233,3 +233,14 @@ Theorem legacy_positions_within_contig : forall rounded tl,
   let pos := legacy_transform 0 rounded in
   Forall (fun p => 1 <= p <= contig_length tl pos) pos.
 Proof. exact legacy_contig_covers. Qed.
+
+(* Exactly one data line per unmasked site: no line lost, none invented (corollary of
+   vcf_lines_exact). *)
+Theorem vcf_line_count : forall inp lines, wf_input inp -> vcf_body_current inp = Ok lines ->
+  length lines = length (unmasked (vi_sites inp) (mask_bools (length (vi_sites inp)) (vi_site_mask inp))).
+Proof. exact vcf_line_count_proof. Qed.
+
+(* position_transform="legacy" is idempotent: applied to its own output it changes nothing. *)
+Theorem legacy_transform_idempotent : forall rounded last,
+  legacy_transform last (legacy_transform last rounded) = legacy_transform last rounded.
+Proof. exact legacy_idempotent_proof. Qed.
